@@ -184,13 +184,12 @@ def run_check(check_id, tier, collect=False, plan_override=None):
     t0 = time.time()
     verif_seed = int(os.environ.get("VERIF_SEED", "1"))
     modname = "checks." + check_id.lower()
-    mod = importlib.import_module(modname)
-    plan = plan_override or mod.PLAN[tier]
-    flavours = sorted({p["flavour"] for p in plan})
-    targets = getattr(mod, "BUILD_TARGETS", "all")
-    if not build(flavours, targets):
+    # build first: importing a check module loads the libraries it tests
+    if not build(["plain", "san"], "all"):
         print("HARNESS-ERROR: build failed")
         return 2
+    mod = importlib.import_module(modname)
+    plan = plan_override or mod.PLAN[tier]
     known = load_known_findings()
     status = 0
     known_lines = []
